@@ -2187,14 +2187,23 @@ size_t ZSTD_decompressStream(ZSTD_DStream* zds, ZSTD_outBuffer* output, ZSTD_inB
                     return hint;
             }   }
 #endif
-            {   size_t const hSize = ZSTD_getFrameHeader_advanced(&zds->fParams, zds->headerBuffer, zds->lhSize, zds->format);
+            {   size_t hSize = ZSTD_getFrameHeader_advanced(&zds->fParams, zds->headerBuffer, zds->lhSize, zds->format);
                 if (hSize == 0 && zds->refMultipleDDicts && zds->ddictSet) {
                     /* only a complete header names this frame's dictionary : before that, fParams still are the previous frame's */
                     ZSTD_DCtx_selectFrameDDict(zds);
                 }
+#if defined(ZSTD_LEGACY_SUPPORT) && (ZSTD_LEGACY_SUPPORT>=1)
+                if (ZSTD_isError(hSize) && (zds->lhSize > 0) && (zds->lhSize < ZSTD_FRAMEIDSIZE)) {
+                    /* the few bytes gathered by previous calls do not start a zstd frame : they can still start a legacy one,
+                     * which is known once the 4 bytes of the magic number are there */
+                    hSize = ZSTD_FRAMEIDSIZE;
+                }
+#endif
                 if (ZSTD_isError(hSize)) {
 #if defined(ZSTD_LEGACY_SUPPORT) && (ZSTD_LEGACY_SUPPORT>=1)
-                    U32 const legacyVersion = ZSTD_isLegacy(istart, iend-istart);
+                    /* a magic number gathered over several calls is in headerBuffer, not at the start of this input */
+                    U32 const legacyVersion = (zds->lhSize >= ZSTD_FRAMEIDSIZE) ?
+                                ZSTD_isLegacy(zds->headerBuffer, zds->lhSize) : ZSTD_isLegacy(istart, (size_t)(iend-istart));
                     if (legacyVersion) {
                         ZSTD_DDict const* const ddict = ZSTD_getDDict(zds);
                         const void* const dict = ddict ? ZSTD_DDict_dictContent(ddict) : NULL;
@@ -2211,6 +2220,18 @@ size_t ZSTD_decompressStream(ZSTD_DStream* zds, ZSTD_outBuffer* output, ZSTD_inB
                             }
                         }
                         zds->legacyVersion = zds->previousLegacyVersion = legacyVersion;
+                        if (zds->lhSize > 0) {
+                            /* the legacy decoder first gets what was gathered so far, then what follows it in this input */
+                            ZSTD_inBuffer gathered;
+                            gathered.src = zds->headerBuffer; gathered.size = zds->lhSize; gathered.pos = 0;
+                            input->pos = (size_t)(ip - (const char*)input->src);
+                            zds->lhSize = 0;
+                            while (gathered.pos < gathered.size) {
+                                size_t const before = gathered.pos;
+                                size_t const h = ZSTD_decompressLegacyStream(zds->legacyContext, legacyVersion, output, &gathered);
+                                if (ZSTD_isError(h)) return h;
+                                RETURN_ERROR_IF(gathered.pos == before, GENERIC, "the legacy decoder does not take its frame header");
+                        }   }
                         {   size_t const hint = ZSTD_decompressLegacyStream(zds->legacyContext, legacyVersion, output, input);
                             if (hint==0) zds->streamStage = zdss_init;   /* or stay in stage zdss_loadHeader */
                             return hint;
@@ -2229,9 +2250,15 @@ size_t ZSTD_decompressStream(ZSTD_DStream* zds, ZSTD_outBuffer* output, ZSTD_inB
                         }
                         input->pos = input->size;
                         /* check first few bytes */
-                        FORWARD_IF_ERROR(
-                            ZSTD_getFrameHeader_advanced(&zds->fParams, zds->headerBuffer, zds->lhSize, zds->format),
-                            "First few bytes detected incorrect" );
+                        {   size_t const firstBytes = ZSTD_getFrameHeader_advanced(&zds->fParams, zds->headerBuffer, zds->lhSize, zds->format);
+#if defined(ZSTD_LEGACY_SUPPORT) && (ZSTD_LEGACY_SUPPORT>=1)
+                            /* not the start of a zstd frame : still acceptable while it can be the start of a legacy frame */
+                            int const maybeLegacy = (zds->lhSize < ZSTD_FRAMEIDSIZE) || (ZSTD_isLegacy(zds->headerBuffer, zds->lhSize) != 0);
+#else
+                            int const maybeLegacy = 0;
+#endif
+                            if (!maybeLegacy) FORWARD_IF_ERROR(firstBytes, "First few bytes detected incorrect");
+                        }
                         /* return hint input size */
                         {   /* a skippable frame has no block : its user data may be shorter than a block header */
                             int const isSkippable = (zds->format == ZSTD_f_zstd1)
